@@ -24,14 +24,14 @@ CONSTANTS Universe,     \* capability names other than "sasl"
           MaxGen        \* connections per client
 
 AllCaps == Universe \cup {"sasl"}
-Mechs == {"none", "PLAIN", "EXTERNAL"}
+Mechs == {"none", "PLAIN", "EXTERNAL", "LOGIN"}   \* LOGIN takes two steps: user name, then - on the challenge "Password:" - the password
 
 VARIABLES
   wanted,   \* capabilities configured by the user
   mech,     \* SASL mechanism configured
   adv,      \* everything the server has advertised
   held,     \* capabilities whose latest acknowledgement enabled them
-  phase,    \* "ls" (CAP LS sent) | "req" | "authwait" | "authsent" | "done"
+  phase,    \* "ls" (CAP LS sent) | "req" | "authwait" | "authsent" | "authsent2" | "done"
   gen,      \* number of the current connection
   steps, lastOp
 
@@ -80,8 +80,14 @@ Plus ==
   /\ phase' = "authsent" /\ Op("plus", [verb |-> "AUTHENTICATE", caps |-> {}], <<"AUTHENTICATE <" \o mech \o ">">>, {})
   /\ UNCHANGED <<wanted, mech, adv, held, gen>>
 
+\* a further challenge of a multi-step mechanism: it is decoded, handed to the mechanism, and the answer encoded
+Challenge ==
+  /\ mech = "LOGIN" /\ phase = "authsent" /\ Step
+  /\ phase' = "authsent2" /\ Op("challenge", [verb |-> "CHALLENGE", caps |-> {}], <<"AUTHENTICATE <LOGIN2>">>, {})
+  /\ UNCHANGED <<wanted, mech, adv, held, gen>>
+
 Outcome(n) ==
-  /\ phase \in {"authwait", "authsent"} /\ Step
+  /\ phase \in {"authwait", "authsent", "authsent2"} /\ Step
   /\ phase' = "done" /\ Op("outcome", [verb |-> n, caps |-> {}], <<"CAP END">>, {})
   /\ UNCHANGED <<wanted, mech, adv, held, gen>>
 
@@ -94,12 +100,18 @@ Reconnect ==
   /\ Op("reconnect", [verb |-> "RECONNECT", caps |-> {}], <<"CAP LS">>, {})
   /\ UNCHANGED <<wanted, mech>>
 
+\* the user calls Connect although the client is connected: refused, and nothing negotiated so far may change
+ConnectAgain ==
+  /\ Step /\ lastOp.ev # "connectagain"
+  /\ Op("connectagain", [verb |-> "CONNECTAGAIN", caps |-> {}], <<>>, {})
+  /\ UNCHANGED <<wanted, mech, adv, held, phase, gen>>
+
 AckSets == {S \in SUBSET {[c |-> c, on |-> b] : c \in AllCaps, b \in BOOLEAN} : S # {} /\ Cardinality(S) <= 2 /\ \A x, y \in S : x.c = y.c => x = y}
 NakSets == {S \in SUBSET AllCaps : Cardinality(S) <= 2}
 Next ==
   \/ \E S \in SUBSET AllCaps : LS(S)
   \/ \E S \in AckSets : Ack(S)
-  \/ (\E S \in NakSets : Nak(S)) \/ Plus \/ Reconnect
+  \/ (\E S \in NakSets : Nak(S)) \/ Plus \/ Challenge \/ Reconnect \/ ConnectAgain
   \/ \E n \in {"903", "904", "908"} : Outcome(n)
 Spec == Init /\ [][Next]_vars
 
